@@ -2,7 +2,8 @@
 
 Coq: Byods/Closure.v (closures), Byods/Provider.v (laws P1-P5), Byods/EqRelModel.v (model of EqRel, of the
 old/combined pair with its merge, of the parallel wrapper, of the ternary per-key map + reverse map),
-Byods/EqRelUF.v, EqRelProofs.v, EqRelPar.v, Ternary.v, EqRelTernary.v, Props/C10.v.
+Byods/EqRelUF.v, EqRelProofs.v, EqRelPar.v, Ternary.v, EqRelTernary.v, Transport.v, EqRelProgram.v (program level, with
+Engine/EvalProv.v + ProvProofs.v), Props/C10.v.
 
 tie, two halves (gen/c10_ds.py, gen/c10_prog.py):
   DS    operation histories `insert(new, t)* ; merge ; read every view of delta and total ; ...` against the real
@@ -136,6 +137,5 @@ def tie(tier, seed, replay):
         assumptions=["column values are small non-negative integers (u32 in the DS harness, i32 in programs); the element type only needs Clone + Hash + Eq",
                      "PROG expected values come from the specification oracle on the EXPLICIT program (Engine/Strat.v strat_fix, proved to compute the least / stratified model); that the real engine agrees with the oracle on the explicit program is asserted on every case (it is C01's subject)"],
         extra=dict(ds_histories=len(ds_cases), prog_programs=len(results), known_class_mismatch_counts=known_counts,
-                   partial=[dict(full="engine_with_providers: run() of a program with a tagged relation leaves the least model of the program plus the explicit reflexivity / symmetry / transitivity rules (statement and what it needs: comment at the top of coq/Props/C10.v)",
-                                 proved="c10_eqrel_binary_provider_ok, c10_eqrel_par_provider_ok, c10_eqrel_ternary_provider_ok (provider laws P1-P5 for every history, every view against the closure), the c10_engine_facing theorems (what the engine consumes), c10_ternary_lifting",
-                                 gap="the engine model (Engine/Eval.v) has no provider-backed relations; the composition is carried by the PROG half of this tie")]))
+                   partial=[],
+                   program_level="proved: c10_program_binary / _binary_par / _ternary (Engine/ProvProofs.v prun_plan_correct instantiated with the transported providers) and c10_bridge_binary / _ternary (closed under the closure operator <-> closed under the explicit rules); scope: one tagged relation, no aggregates, serial engine model; the PROG half ties the models to the real macro + providers and also covers aggregates / negation over the tagged relation and ascent_par!"))
